@@ -2,3 +2,6 @@ import Skc.Model.Rank
 import Skc.Proofs.Rank
 import Skc.Proofs.RankValid
 import Skc.Props.C03
+import Skc.Props.C18
+import Skc.Props.C14
+import Skc.Props.C04
